@@ -19,6 +19,7 @@ EXPLANATION = (
     "UnifyError is only a control signal. Most-general-ness and variable renaming across contexts are not decided."
     " Added after seed round 6: U7 unify_call_return dereferences answer bindings through the caller-side links no later than the renaming pass."
     " Added after seed round 7: U8 context_min_var lowers its bound by the variable itself or by the minimum over all variables of an argument."
+    " Added after seed round 9: U4 also requires that =/2 and \\=/2 have no return outside the single unification attempt."
 )
 TECHNIQUE = "static analysis: path-wise decision-table extraction over unify_value/unify_value_dc, sibling complement rule"
 LEVEL_TEXT = EXPLANATION
@@ -186,6 +187,15 @@ def rule_u4(repo, col):
     col.decide("U4", m, fn.node, ok_ne and ne[0].wrapper == "b", "\\=/2 succeeds exactly when unification fails",
                "\\=/2 must return False when unification succeeds and True when it raises UnifyError (boolean wrapper); found %s / %s" % (norm(ok2), norm(fail2)),
                construct="def _builtin_neq: results", function=fn.name)
+    # ... and nothing else decides: no return outside that try/except (a short-cut that compares arguments pair by pair loses the bindings shared between the pairs)
+    for f_ in (fe, fn):
+        t_ = [n for n in f_.node.body if isinstance(n, ast.Try)][0]
+        inside = {id(x) for x in ast.walk(t_)}
+        outside = [r for r in ast.walk(f_.node) if isinstance(r, ast.Return) and id(r) not in inside]
+        col.decide("U4", m, outside[0] if outside else f_.node, not outside, "%s answers only through the unification attempt" % f_.name,
+                   "%s has a return outside its unify_value attempt (%s): the answer must be decided by ONE unification of the two whole arguments - deciding argument pairs separately "
+                   "forgets that a variable bound by one pair constrains the others (g(X,X) \\= g(a,b) then fails although no unifier exists)" % (f_.name, norm(outside[0])[:60] if outside else ""),
+                   construct="def %s: answer decided outside the unification attempt" % f_.name, function=f_.name)
     if isinstance(ok1, ast.List) and ok1.elts and isinstance(ok1.elts[0], ast.Tuple):
         els = [norm(e) for e in ok1.elts[0].elts]
         col.decide("U4", m, fe.node, len(els) == 2 and els[0] == els[1], "both arguments are replaced by the unifier", "=/2 must return the unified term for both arguments; found %s" % els,
